@@ -369,6 +369,7 @@ def finish(ctx, proof, level_rule, assumptions, extra_cov=None):
         'counters': dict(ctx.stats), 'input_distribution': {k: dict(sorted(v.items(), key=lambda kv: -kv[1])[:40]) for k, v in ctx.hist.items()},
         'exhaustive': bool(ctx.exhaustive) and all(ctx.exhaustive.values()), 'exhaustive_parts': ctx.exhaustive,
         'proof_times_s': {k: proof[k] for k in ('make_s', 'coqc_s', 'coqchk_s') if k in proof},
+        'coqchk_output_tail': proof.get('coqchk_tail', 'not run in this tier'),
         'notes': ctx.notes,
     }
     if extra_cov:
